@@ -9,7 +9,7 @@ FORMAT = "xyz"
 FILENAME = "gen.xyz"
 EXPLICIT_FMT = False
 SOURCES = ["https://en.wikipedia.org/wiki/XYZ_file_format (de-facto standard: count, comment, element x y z in angstrom)"]
-CLASSES = ["small", "numbers", "wide", "many_atoms", "trajectory"]
+CLASSES = ["small", "numbers", "wide", "many_atoms", "trajectory", "blank_titles"]
 
 
 def _frame(rng, natom, mag, use_numbers, title):
@@ -30,6 +30,8 @@ def generate(rng, klass):
         frames = [_frame(rng, 5, 9000.0, False, "wide coordinates")]
     elif klass == "many_atoms":
         frames = [_frame(rng, int(rng.choice([99, 100, 999, 1000, 1200])), 50.0, False, "many atoms")]
+    elif klass == "blank_titles":
+        frames = [_frame(rng, int(rng.integers(1, 6)), 5.0, False, "" if i % 2 == 0 else f"frame {i}") for i in range(int(rng.integers(2, 6)))]
     else:
         frames = [_frame(rng, int(rng.integers(1, 6)), 5.0, bool(rng.integers(2)), f"frame {i} id={i}") for i in range(int(rng.integers(2, 6)))]
     return {"frames": frames, "features": [klass, f"nframe={len(frames)}", f"natom={len(frames[0]['atnums'])}"]}
